@@ -2,6 +2,9 @@
 # harness/rigsweep.sh <nrigs> <seed-name> ...   : run the seeds over <nrigs> parallel rigs; prints one line per seed
 cd "$(dirname "$0")/.."
 n=$1; shift
+# freeze the machinery for the whole sweep: later edits in /verif do not reach a sweep that is running
+export RIG_SRC=/tmp/rigsrc
+rsync -a --delete --exclude evidence/replays --exclude .git /verif/ $RIG_SRC/
 i=0
 for k in $(seq 1 $n); do : > /tmp/rigq_$k; done
 for s in "$@"; do k=$(( i % n + 1 )); echo "$s" >> /tmp/rigq_$k; i=$((i+1)); done
